@@ -224,7 +224,7 @@ func deepEqualValue(a, b value.Value) bool {
 }
 
 func c02(c *wk.Ctx) {
-	c.Note("rule", "streams: ctor = dynamic values built only from the public constructors (all scalar kinds, string, raw, void, lists of values nested to depth 5 / 8); opaque = value.Opaque(sig, data) for composite signatures drawn from the grammar (lists, maps, tuples, structs, double, object) whose members include m at any depth (one case in sixteen: a nested value whose own signature is 150-2000 bytes long), data = reference encoding of a random value; big = long strings / raws / lists at the size caps. Oracle: Write == reference encoding; NewValue(enc||trailer) succeeds, consumes exactly len(enc), same signature, re-encodes to the same bytes, and the same holds when enc is delivered in pieces of 1-9 bytes with io.EOF reported together with the last piece; constructor values compare equal. Distinct non-trivial = distinct (stream, type shape, encoded length class).")
+	c.Note("rule", "streams: ctor = dynamic values built only from the public constructors (all scalar kinds, string, raw, void, lists of values nested to depth 5 / 8); opaque = value.Opaque(sig, data) for composite signatures drawn from the grammar (lists, maps, tuples, structs, double, object) whose members include m at any depth (one case in sixteen each: a nested value whose own signature is 150-2000 bytes long; a wide signature, 20-400 composite members side by side; a deep one, 10-150 levels), data = reference encoding of a random value; big = long strings / raws / lists at the size caps. Oracle: Write == reference encoding; NewValue(enc||trailer) succeeds, consumes exactly len(enc), same signature, re-encodes to the same bytes, and the same holds when enc is delivered in pieces of 1-9 bytes with io.EOF reported together with the last piece; constructor values compare equal. Distinct non-trivial = distinct (stream, type shape, encoded length class).")
 	depth := c.Pick(5, 8)
 	c.Cases("ctor", c.Pick(30000, 600000), func(i int, rng *rand.Rand) {
 		b := 60
@@ -256,6 +256,54 @@ func c02(c *wk.Ctx) {
 				d = rc.DynV{T: rc.ListOf(rc.TupleOf(rc.T(rc.String), rc.T(rc.Dyn))), V: []interface{}{rc.Tup{"a", big}, rc.Tup{"b", big}}}
 			}
 			c.Count("nested_values_with_signatures_over_150_bytes", 1)
+		}
+		if i%16 == 3 {
+			// WIDE and shallow: a tuple / structure of 20-400 members, each a small composite type (a few
+			// hundred lists, maps and tuples side by side at nesting depth 2-3), at top level or nested in a value
+			n := 20 + rng.Intn(381)
+			small := rc.GenOpts{Depth: 2, Width: 2, Scalars: rc.AllScalars, MaxAnonNest: 2}
+			mem := make([]*rc.Type, n)
+			names := make([]string, n)
+			for k := range mem {
+				for {
+					mem[k] = rc.GenType(rng, small)
+					if mem[k].K >= rc.List {
+						break
+					}
+				}
+				names[k] = fmt.Sprintf("m%d", k)
+			}
+			t := rc.TupleOf(mem...)
+			if rng.Intn(2) == 0 {
+				t = rc.StructOf("Wide", names, mem...)
+			}
+			b := 400
+			wide := rc.DynV{T: t, V: rc.GenValue(rng, t, rc.ValOpts{MaxLen: 2, MaxStr: 6, Budget: &b})}
+			d = wide
+			if rng.Intn(3) == 0 {
+				d = rc.DynV{T: rc.TupleOf(rc.T(rc.Dyn), rc.T(rc.Int32)), V: rc.Tup{wide, int32(rng.Int31())}}
+			}
+			c.Count("wide_signatures_20_to_400_composite_members", 1)
+		}
+		if i%16 == 11 {
+			// DEEP and narrow: 10-150 levels of lists, maps and one-member tuples / structures around a small type
+			depth := 10 + rng.Intn(141)
+			t := rc.GenType(rng, rc.GenOpts{Depth: 2, Width: 2, Scalars: rc.AllScalars, MaxAnonNest: 2})
+			for k := 0; k < depth; k++ {
+				switch rng.Intn(4) {
+				case 0:
+					t = rc.ListOf(t)
+				case 1:
+					t = rc.MapOf(rc.T(rc.String), t)
+				case 2:
+					t = rc.TupleOf(rc.T(rc.Uint8), t)
+				default:
+					t = rc.StructOf(fmt.Sprintf("L%d", k), []string{"a"}, t)
+				}
+			}
+			b := 200
+			d = rc.DynV{T: t, V: rc.GenValue(rng, t, rc.ValOpts{MaxLen: 2, MaxStr: 6, Budget: &b})}
+			c.Count("deep_signatures_10_to_150_levels", 1)
 		}
 		if i%16 == 7 {
 			// a raw buffer held by a value which is itself nested in an opaque structure / map / list of tuples
